@@ -6,6 +6,7 @@ package main
 import (
 	"fmt"
 	"go/types"
+	"regexp"
 	"strings"
 
 	"golang.org/x/tools/go/ssa"
@@ -145,6 +146,51 @@ func gv12(w *World, r *Report) {
 		}
 	}
 	okParse := len(pg) == 1 && w.condCanonHolds(pg[0].If.Block(), "("+P+".OptType == 257)", 1)
+	if !okParse {
+		// the loop over the options may sit in a helper that is handed the options: the
+		// guard is read in ValidateTrx's terms, and the helper is called where the
+		// proposal is a parameter proposal, its error failing the validation
+		reG := regexp.MustCompile(`^\(json\.Unmarshal\((.+)\[.*\], new\(types\.GovParams\)\) != nil\)$`)
+		for _, hf := range w.withModuleCallees(fn, 2) {
+			if hf == fn {
+				continue
+			}
+			for _, g := range w.Guards(hf) {
+				g := g
+				hit := w.inCallerTerms(fn, hf, func() bool {
+					m := reG.FindStringSubmatch(w.Canon(g.If.Cond))
+					return m != nil && m[1] == P+".Options"
+				})
+				if !hit {
+					continue
+				}
+				// the call of the helper in ValidateTrx: under OptType == 257, result guarded
+				for _, c := range CallsIn(fn) {
+					call, isCall := c.(*ssa.Call)
+					if !isCall || call.Common().StaticCallee() != hf {
+						continue
+					}
+					guarded := false
+					for _, g2 := range w.Guards(fn) {
+						if bo, isB := g2.If.Cond.(*ssa.BinOp); isB && (sameValue(bo.X, call) || sameValue(bo.Y, call)) {
+							guarded = true
+						}
+					}
+					// or its result is what the validation returns
+					if !guarded && call.Referrers() != nil {
+						for _, ref := range *call.Referrers() {
+							if _, isR := ref.(*ssa.Return); isR {
+								guarded = true
+							}
+						}
+					}
+					if guarded && w.condCanonHolds(call.Block(), "("+P+".OptType == 257)", 1) {
+						okParse = true
+					}
+				}
+			}
+		}
+	}
 	r.Check(okParse, "Gv-1", "ValidateTrx:proposal:options-parse", "every option of a parameter proposal must parse as governance parameters", "options of a parameter proposal are no longer parsed at validation", fnSite(w, fn))
 
 	prop := led + `.*` + VV + `\.TxHash\.Array32\(\)\)#0\)?`
